@@ -389,7 +389,7 @@ def evaluate(ctx, name, lines, relevant, dbg=False, x=True, nontrivial=None, cap
         if bad:
             ctx.failures.append(dict(batch=name, case=line, impl=impl[i], model=model[i] if x else None,
                                      clauses=sorted(bad), dbg=dbg))
-        if x and model[i] != "ORACLE" and impl[i] != model[i]:
+        if x and model[i] != "ORACLE" and impl[i] != "SKIPPED" and impl[i] != model[i]:
             ctx.mismatches.append(dict(batch=name, case=line, impl=impl[i], model=model[i], dbg=dbg))
         if x and incoq_eligible(comp, kv, line):
             ctx.incoq_pool.append((line, model[i], dbg))
@@ -518,50 +518,68 @@ def rebuild_line(comp, kv, a, b, r):
     return comp + " " + " ".join("%s=%s" % (k, kv[k]) for k in keys)
 
 
-def shrink_candidates(line):
+def shrink_candidates(line, chunk=1):
+    """the case with one block of [chunk] consecutive items removed from old or from new (ranges adjusted);
+    block starts are multiples of chunk, so a round has about (|old| + |new|) / chunk candidates"""
     p = seq_case_parts(line)
     if p is None:
         return []
     comp, kv, a, b, (os_, oe, ns, ne) = p
     out = []
-    for i in range(len(a)):
-        a2 = a[:i] + a[i + 1:]
-        r = (os_ - (1 if i < os_ else 0), oe - (1 if i < oe else 0), ns, ne)
-        if r[0] <= r[1]:
-            out.append(rebuild_line(comp, kv, a2, b, r))
-    for j in range(len(b)):
-        b2 = b[:j] + b[j + 1:]
-        r = (os_, oe, ns - (1 if j < ns else 0), ne - (1 if j < ne else 0))
-        if r[2] <= r[3]:
-            out.append(rebuild_line(comp, kv, a, b2, r))
-    # relabel to first-seen order
-    ca, cb = gen.canon_pair(a, b)
-    if list(ca) != a or list(cb) != b:
-        out.append(rebuild_line(comp, kv, list(ca), list(cb), (os_, oe, ns, ne)))
+
+    def cut(lo, hi, i, j):       # range [lo,hi) after removing items [i,j)
+        f = lambda x: x - max(0, min(x, j) - i) if x > i else x
+        return f(lo), f(hi)
+    for i in range(0, len(a), chunk):
+        j = min(len(a), i + chunk)
+        a2 = a[:i] + a[j:]
+        lo, hi = cut(os_, oe, i, j)
+        if lo <= hi:
+            out.append(rebuild_line(comp, kv, a2, b, (lo, hi, ns, ne)))
+    for i in range(0, len(b), chunk):
+        j = min(len(b), i + chunk)
+        b2 = b[:i] + b[j:]
+        lo, hi = cut(ns, ne, i, j)
+        if lo <= hi:
+            out.append(rebuild_line(comp, kv, a, b2, (os_, oe, lo, hi)))
+    if chunk == 1:
+        # relabel to first-seen order
+        ca, cb = gen.canon_pair(a, b)
+        if list(ca) != a or list(cb) != b:
+            out.append(rebuild_line(comp, kv, list(ca), list(cb), (os_, oe, ns, ne)))
     return out
 
 
 def shrink(ctx, fail, relevant, budget_s):
-    """greedy delta debugging on the sequences; predicate = some relevant clause
-    still fails on the implementation's output"""
+    """delta debugging on the sequences, blocks first (a quarter of the longer side, halved whenever no block can
+    be removed), single items last; predicate = some relevant clause still fails on the implementation's output"""
     t_end = time.time() + budget_s
     cur = fail
+    p = seq_case_parts(cur["case"])
+    chunk = max(1, max(len(p[2]), len(p[3])) // 4) if p else 1
     while time.time() < t_end:
-        cands = shrink_candidates(cur["case"])
-        if not cands:
-            break
-        impl, _, verd = run_batch(ctx, cands, dbg=cur["dbg"], want_model=False)
+        cands = shrink_candidates(cur["case"], chunk)
+        if len(cands) > 400:
+            cands = cands[:400]
         nxt = None
-        for c, im, v in zip(cands, impl, verd):
-            comp, kv = parse_line(c)
-            rel = relevant(comp, kv) if callable(relevant) else relevant
-            _, failed = failed_clauses(v)
-            bad = {x for x in failed if x in rel}
-            if bad and (nxt is None or len(c) < len(nxt["case"])):
-                nxt = dict(cur, case=c, impl=im, clauses=sorted(bad), shrunk_from=fail["case"])
+        if cands:
+            impl, _, verd = run_batch(ctx, cands, dbg=cur["dbg"], want_model=False)
+            for c, im, v in zip(cands, impl, verd):
+                comp, kv = parse_line(c)
+                rel = relevant(comp, kv) if callable(relevant) else relevant
+                _, failed = failed_clauses(v)
+                bad = {x for x in failed if x in rel}
+                if bad and (nxt is None or len(c) < len(nxt["case"])):
+                    nxt = dict(cur, case=c, impl=im, clauses=sorted(bad), shrunk_from=fail["case"])
         if nxt is None:
-            break
+            if chunk == 1:
+                break
+            chunk = max(1, chunk // 2)
+            continue
         cur = nxt
+        p = seq_case_parts(cur["case"])
+        if p:
+            chunk = max(1, min(chunk, max(len(p[2]), len(p[3])) // 2))
     return cur
 
 
